@@ -505,7 +505,7 @@ def check_C05(ctx):
 
 def check_C09(ctx):
     t = ctx.tier
-    gens = ["Template_gen%s_%s.cfg" % (k, t) for k in "TSCDP"]
+    gens = ["Template_gen%s_%s.cfg" % (k, t) for k in ("T", "T2", "S", "C", "D", "P")]
     res = run_family(ctx, "template", "Template", gens, "TemplateTrace", rand_n=4000 if ctx.quick() else 80000,
                      a_cfgs=["Template_A_%s.cfg" % t], shard=8000)
     fails = vlib.collect_failures(res["trace"], res["bad"], "template", only_prefix="C09")
@@ -597,7 +597,7 @@ def check_C11(ctx):
 
 def check_C12(ctx):
     t = ctx.tier
-    gens = ["Comments_gen%s_%s.cfg" % (k, t) for k in ("Tag", "List", "Lay")]
+    gens = ["Comments_gen%s_%s.cfg" % (k, t) for k in ("Tag", "List", "Lay", "Lay2")]
     res = run_family(ctx, "comments", "Comments", gens, "CommentsTrace", rand_n=2000 if ctx.quick() else 20000,
                      a_cfgs=["Comments_A_%s.cfg" % t, "Comments_A2_%s.cfg" % t], shard=6000)
     fails = vlib.collect_failures(res["trace"], res["bad"], "comments", only_prefix="C12")
